@@ -1054,16 +1054,20 @@ static void janet_chan_drop_stale(JanetChannel *channel, JanetQueue *pending) {
     }
 }
 
-static int janet_channel_push_with_lock(JanetChannel *channel, Janet x, int mode) {
+static int janet_channel_push_with_lock(JanetChannel *channel, Janet x, int mode, Janet *err) {
     JanetChannelPending reader;
     int is_empty;
+    /* A caller such as ev/select may hold the locks of other channels as well, so a failure comes back as
+     * status 2 with the error value in *err (like janet_channel_pop_with_lock) instead of being raised here. */
     if (janet_chan_pack(channel, &x)) {
         janet_chan_unlock(channel);
-        janet_panicf("failed to pack value for channel: %v", x);
+        *err = janet_wrap_string(janet_formatc("failed to pack value for channel: %v", x));
+        return 2;
     }
     if (channel->closed) {
         janet_chan_unlock(channel);
-        janet_panic("cannot write to closed channel");
+        *err = janet_cstringv("cannot write to closed channel");
+        return 2;
     }
     int is_threaded = janet_chan_is_threaded(channel);
     if (is_threaded) {
@@ -1078,7 +1082,8 @@ static int janet_channel_push_with_lock(JanetChannel *channel, Janet x, int mode
         /* No pending reader */
         if (janet_q_push(&channel->items, &x, sizeof(Janet))) {
             janet_chan_unlock(channel);
-            janet_panicf("channel overflow: %v", x);
+            *err = janet_wrap_string(janet_formatc("channel overflow: %v", x));
+            return 2;
         } else if (janet_q_count(&channel->items) > channel->limit) {
             /* No root fiber, we are in completion on a root fiber. Don't block. */
             if (mode == 2) {
@@ -1124,7 +1129,10 @@ static int janet_channel_push_with_lock(JanetChannel *channel, Janet x, int mode
 
 static int janet_channel_push(JanetChannel *channel, Janet x, int mode) {
     janet_chan_lock(channel);
-    return janet_channel_push_with_lock(channel, x, mode);
+    Janet err;
+    int status = janet_channel_push_with_lock(channel, x, mode, &err);
+    if (status == 2) janet_panicv(err);
+    return status;
 }
 
 /* Pop from a channel - returns 1 if item was obtained, 0 otherwise. The item
@@ -1329,8 +1337,10 @@ JANET_CORE_FN(cfun_channel_choice,
                 return make_close_result(chan);
             }
             if (janet_q_count(&chan->items) < chan->limit) {
-                janet_channel_push_with_lock(chan, data[1], 1);
+                Janet err;
+                int status = janet_channel_push_with_lock(chan, data[1], 1, &err);
                 chan_unlock_args(argv, i);
+                if (status == 2) janet_panicv(err);
                 return make_write_result(chan);
             }
         } else {
@@ -1357,12 +1367,19 @@ JANET_CORE_FN(cfun_channel_choice,
         if (janet_indexed_view(argv[i], &data, &len) && len == 2) {
             /* Write */
             JanetChannel *chan = janet_channel_unwrap(janet_unwrap_abstract(data[0]));
-            if (!janet_channel_push_with_lock(chan, data[1], 1)) {
-                /* The value went straight to a waiting reader, so this clause has completed and
-                 * nothing will wake us for it. Resume ourselves with its result; being scheduled
-                 * also invalidates the registrations made for the earlier clauses. */
+            Janet err;
+            int status = janet_channel_push_with_lock(chan, data[1], 1, &err);
+            if (status != 1) {
+                /* Either the value went straight to a waiting reader, so this clause has completed and
+                 * nothing will wake us for it, or it could not be written at all. Resume ourselves with
+                 * the result or the error; being scheduled also invalidates the registrations made for
+                 * the earlier clauses. */
                 chan_unlock_args(argv + i + 1, argc - i - 1);
-                janet_schedule(janet_vm.root_fiber, make_write_result(chan));
+                if (status == 2) {
+                    janet_cancel(janet_vm.root_fiber, err);
+                } else {
+                    janet_schedule(janet_vm.root_fiber, make_write_result(chan));
+                }
                 break;
             }
         } else {
